@@ -419,25 +419,31 @@ Lemma check_obs_nil w ps rs :
   check_obs w ps rs = [] <->
   ps <> [] /\ all_equal ps = true /\
   forallb (fun r => existsb (gres_eqb r) ps) rs = true /\
-  (w = true -> forallb is_ok ps = true).
+  (w = true -> forallb is_ok ps = true) /\
+  (w = true -> existsb has_ids ps = true -> nonempty rs = true).
 Proof.
   unfold check_obs. rewrite dedup_nil. split.
   - intros H. apply app_eq_nil in H as [H1 H2]. apply app_eq_nil in H2 as [H2 H3].
-    apply clause_nil in H3.
+    apply app_eq_nil in H3 as [H3 H4].
+    apply clause_nil in H3. apply clause_nil in H4.
     assert (Hps : ps <> [] /\ all_equal ps = true).
     { unfold parses_clauses in H1. destruct ps; [discriminate|]. split; [discriminate|].
       destruct (all_equal (g :: ps)); [reflexivity|]. destruct (all_equal _); discriminate. }
     destruct Hps as [Hne Heq]. repeat split; auto.
-    + clear H1 H3. induction rs as [|r rs IH]; [reflexivity|]. simpl in *.
+    + clear H1 H3 H4. induction rs as [|r rs IH]; [reflexivity|]. simpl in *.
       apply app_eq_nil in H2 as [Hr Hrs]. rewrite (IH Hrs), andb_true_r.
       unfold roundtrip_clause in Hr. destruct (existsb (gres_eqb r) ps); [reflexivity|].
       destruct (existsb _ ps); [discriminate|]. destruct (existsb _ ps); discriminate.
     + intros ->. simpl in H3. exact H3.
-  - intros (Hne & Heq & Hrs & Hw).
+    + intros -> Hex. rewrite Hex in H4. simpl in H4. exact H4.
+  - intros (Hne & Heq & Hrs & Hw & Hwb).
     assert (E1 : parses_clauses ps = []) by (unfold parses_clauses; destruct ps; [contradiction | rewrite Heq; reflexivity]).
     rewrite E1. simpl.
     assert (E2 : flat_map (roundtrip_clause ps) rs = []).
-    { clear E1 Hw. induction rs as [|r rs IH]; [reflexivity|]. simpl in *.
+    { clear E1 Hw Hwb. induction rs as [|r rs IH]; [reflexivity|]. simpl in *.
       apply andb_true_iff in Hrs as [Hr Hrs]. rewrite (IH Hrs). unfold roundtrip_clause. rewrite Hr. reflexivity. }
-    rewrite E2. simpl. apply clause_nil. destruct w; simpl; auto.
+    rewrite E2. simpl.
+    assert (E3 : clause 6 (negb w || forallb is_ok ps) = []) by (apply clause_nil; destruct w; simpl; auto).
+    rewrite E3. simpl. apply clause_nil. destruct w; simpl; [|reflexivity].
+    destruct (existsb has_ids ps); simpl; auto.
 Qed.
